@@ -23,6 +23,9 @@ MIN_OBS = {'faulted_runs': {'quick': 2000, 'thorough': 8000}, 'timeouts_measured
            'aborts_required_and_seen': {'quick': 300, 'thorough': 1500}, 'followups_checked': {'quick': 2000, 'thorough': 8000},
            'delivered_nothing': 100, 'delivered_exact': 100}
 
+# if the private session tables cannot be observed (renamed by a refactor) the time-out sub-check is reported as not observed
+MIN_OBS_UNLESS = {'timeouts_measured': 'tables_not_observed'}
+
 
 def cases(tier, seed):
     out = []
@@ -40,6 +43,15 @@ def cases(tier, seed):
                             if mode == 'bam' and fault == 'sil_resp':
                                 continue
                             out.append(dict(layer=layer, mode=mode, size=size, w=w, fault=fault, seed=seed * 7919 + len(out)))
+        # configuration variants: asymmetric windows, configured packet intervals
+        for P in ((3, 5) if tier == 'quick' else (2, 3, 5, 8, 12)):
+            size = unit * P - 2
+            for fault in ('lose', 'sil_orig', 'sil_resp'):
+                out.append(dict(layer=layer, mode='cmdt', size=size, w=2, wb=5, fault=fault, seed=seed * 7919 + len(out)))
+                out.append(dict(layer=layer, mode='cmdt', size=size, w=5, wb=2, fault=fault, seed=seed * 7919 + len(out)))
+                out.append(dict(layer=layer, mode='cmdt', size=size, w=255, dt_interval=0.005, fault=fault, seed=seed * 7919 + len(out)))
+                if fault != 'sil_resp':
+                    out.append(dict(layer=layer, mode='bam', size=size, w=1, bam_interval=0.1, fault=fault, seed=seed * 7919 + len(out)))
     return out
 
 
@@ -49,8 +61,14 @@ def one_run(case, k, seed):
     fd = layer == 'j1939-22'
     W = World(seed, layer, (0.0002, 0.003))
     sim = W.sim
-    A = W.stack('A', max_cmdt_packets=w)
-    B = W.stack('B', max_cmdt_packets=w)
+    kwa = dict(max_cmdt_packets=w)
+    kwb = dict(max_cmdt_packets=case.get('wb', w))
+    if case.get('dt_interval') is not None:
+        kwa['minimum_tp_rts_cts_dt_interval'] = case['dt_interval']
+    if case.get('bam_interval') is not None:
+        kwa['minimum_tp_bam_dt_interval'] = case['bam_interval']
+    A = W.stack('A', **kwa)
+    B = W.stack('B', **kwb)
     ca = W.ca(A, 0x10, identity_number=1)
     cb = W.ca(B, 0x20, identity_number=2)
     W.listen_ca(ca, 'A')
@@ -122,7 +140,7 @@ def run_case(case):
         r['W'].close()
     sample = dict(case=case, fault_points=F, baseline_frames=[f.brief() for f in base['frames'][:min(base['n1'], 10)]],
                   abort_reasons_seen=sorted(reasons))
-    return dict(violations=list(viol), inconclusive=None if F > 0 else 'baseline run produced no frames', sig=repr((layer, mode, size, w, fault)),
+    return dict(violations=list(viol), inconclusive=None if F > 0 else 'baseline run produced no frames', sig=repr((layer, mode, size, w, case.get('wb'), case.get('dt_interval'), case.get('bam_interval'), fault)),
                 nontrivial=obs['effective_faults'] > 0, obs=obs, sample=sample)
 
 
